@@ -183,6 +183,9 @@ class Scenario:
     overrides: Dict[str, Any] = field(default_factory=dict)  # repo function name -> checker-side semantics
     externals: Dict[str, Any] = field(default_factory=dict)  # dotted library name -> checker-side semantics for this scenario
     plain_registers: bool = False  # Register(...) builds an ordinary object (name, index) instead of a symbolic transpiler register
+    max_depth: int = 0  # call nesting allowed (0: the interpreter's default of 8)
+    strict_text: bool = False  # an f-string whose parts cannot be printed is an analysis error (default: the placeholder "<fstring>", good enough for messages)
+    run_constructors: bool = False  # Cls(...) of a repository class runs its __init__ / __post_init__ (default: the keyword arguments become the fields)
 
 
 class Interp:
@@ -201,7 +204,7 @@ class Interp:
     # -- calls ------------------------------------------------------------
     def call_function(self, m, fn, args: List[Any], kwargs: Dict[str, Any], self_obj=None):
         self.depth += 1
-        if self.depth > self.MAX_DEPTH:
+        if self.depth > (getattr(self.sc, "max_depth", None) or self.MAX_DEPTH):
             raise AnalysisError("circuit evaluation: inlining depth exceeded")
         if not hasattr(self, "frames"):
             self.frames = []
@@ -238,11 +241,14 @@ class Interp:
             for p, d in zip(a.kwonlyargs, a.kw_defaults):
                 if p.arg not in env and d is not None:
                     env[p.arg] = self.eval(d, env, m)
+            produces = any(isinstance(n_, ast.Yield) for n_ in A.walk_no_nested(fn)) and "contextmanager" not in {(dotted(d_) or "").split(".")[-1] for d_ in fn.decorator_list}
+            if produces:
+                env["__yielded__"] = []
             try:
                 self.block(fn.body, env, m)
             except _Return as r:
-                return r.value
-            return None
+                return env["__yielded__"] if produces else r.value
+            return env["__yielded__"] if produces else None
         finally:
             self.depth -= 1
             self.frames.pop()
@@ -301,9 +307,15 @@ class Interp:
             if isinstance(st.value, ast.Constant):
                 return
             if isinstance(st.value, (ast.Yield, ast.YieldFrom)):
-                # a generator handler is followed through as straight-line code: what it yields (or delegates to) is evaluated and dropped
-                if st.value.value is not None:
-                    self.eval(st.value.value, env, m)
+                # a generator is followed through as straight-line code; what a function with plain `yield`s produces is collected
+                # (call_function hands the collected list to the caller), what it delegates to with `yield from` is evaluated
+                v_ = self.eval(st.value.value, env, m) if st.value.value is not None else None
+                col = env.get("__yielded__")
+                if col is not None:
+                    if isinstance(st.value, ast.Yield):
+                        col.append(v_)
+                    elif isinstance(v_, (list, tuple)):
+                        col.extend(v_)
                 return
             self.eval(st.value, env, m)
             return
@@ -330,7 +342,7 @@ class Interp:
                 self.block(st.orelse, env, m)
             return
         if isinstance(st, ast.For):
-            it = self.eval(st.iter, env, m)
+            it = self._iterable(self.eval(st.iter, env, m))
             if isinstance(it, list):
                 it = _live(it)  # a list is iterated as Python does: by position in the live object, so a mutation during the loop shows
             n = 0
@@ -646,13 +658,19 @@ class Interp:
                 if isinstance(v, ast.Constant):
                     parts.append(str(v.value))
                 elif isinstance(v, ast.FormattedValue) and v.format_spec is None and v.conversion in (-1, 115):
+                    strict = getattr(self.sc, "strict_text", False)
                     try:
                         x = self.eval(v.value, env, m)
                     except (AnalysisError, EvalRaise):
+                        if strict:
+                            raise
                         return "<fstring>"
-                    if not isinstance(x, (int, str)) or isinstance(x, bool):
-                        return "<fstring>"  # text of an object: only used in messages
-                    parts.append(str(x))
+                    t_ = self._to_str(x)
+                    if t_ is None:
+                        if strict:
+                            raise AnalysisError(f"circuit evaluation: text of {type(x).__name__} in an f-string ({src(v.value)[:40]})")
+                        return "<fstring>"  # text of an object without a printer of its own: only used in messages
+                    parts.append(t_)
                 else:
                     return "<fstring>"
             return "".join(parts)
@@ -666,7 +684,7 @@ class Interp:
                 g = e.generators[k]
                 if g.is_async:
                     raise AnalysisError("circuit evaluation: async comprehension")
-                for item in self.eval(g.iter, env_, m):
+                for item in self._iterable(self.eval(g.iter, env_, m)):
                     env2 = dict(env_)
                     self.assign(g.target, item, env2, m)
                     if all(self.truth(self.eval(c, env2, m)) for c in g.ifs):
@@ -691,6 +709,27 @@ class Interp:
             env[e.target.id] = v
             return v
         raise AnalysisError(f"circuit evaluation: expression form {type(e).__name__} outside the enumerated idioms: {src(e)[:60]}")
+
+    def _to_str(self, x):
+        """str(x) as Python computes it, for the values the interpreter knows how to print (None: not known)"""
+        if isinstance(x, (int, str, float)) or x is None:
+            return str(x)
+        if isinstance(x, EnumMember):
+            return f"{x.enum.split(':')[-1]}.{x.name}"
+        if isinstance(x, Obj) and x.cls is not None and self.repo.lookup(x.cls, "__str__") is not None:
+            r_ = self.repo.lookup(x.cls, "__str__")
+            try:
+                t_ = self.call_function(r_[0].module, r_[1], [], {}, self_obj=x)
+            except (AnalysisError, EvalRaise):
+                return None
+            return t_ if isinstance(t_, str) else None
+        return None
+
+    def _iterable(self, v):
+        """what a for loop / comprehension iterates: an enumeration class yields its members in definition order"""
+        if isinstance(v, tuple) and len(v) == 2 and v[0] == "class" and self.ev.is_enum(v[1]):
+            return [EnumMember(v[1].qualname, k_, mv_) for k_, mv_ in self.ev.enum_members(v[1]).items()]
+        return v
 
     def _hashable(self, k):
         if isinstance(k, EnumMember):
@@ -775,6 +814,15 @@ class Interp:
             return ("external", "builtins." + name)
         r = self.repo.resolve(m, name)
         if r is None:
+            # a module-level name bound by tuple unpacking: `A, B = <expr>`
+            for st in m.tree.body:
+                if isinstance(st, ast.Assign) and len(st.targets) == 1 and isinstance(st.targets[0], (ast.Tuple, ast.List)):
+                    names = [t.id if isinstance(t, ast.Name) else None for t in st.targets[0].elts]
+                    if name in names:
+                        v = list(self.eval(st.value, {}, m))
+                        if len(v) != len(names):
+                            raise EvalRaise("ValueError", "unpack")
+                        return v[names.index(name)]
             raise AnalysisError(f"circuit evaluation: unresolved name {name}")
         return self.global_value(r, name)
 
@@ -796,9 +844,13 @@ class Interp:
             c = r[1]
             if self.ev.is_enum(c):
                 return self.ev._class_attr(c, r[2])
-            la = self.repo.lookup_attr(c, r[2].split(".")[0])
+            parts_ = r[2].split(".")
+            la = self.repo.lookup_attr(c, parts_[0])
             if la is not None and la[2] is not None:
-                return self.eval(la[2], {}, la[0].module)
+                v_ = self.eval(la[2], {}, la[0].module)
+                for a_ in parts_[1:]:  # Cls.ATTR.method: the rest of the chain is read from the value
+                    v_ = self.getattr(v_, a_)
+                return v_
         raise AnalysisError(f"circuit evaluation: cannot evaluate global {name}")
 
     def attribute(self, e, env, m):
@@ -894,6 +946,24 @@ class Interp:
         if o is None or isinstance(o, (bool, int, float)):
             raise EvalRaise("AttributeError", f"{type(o).__name__} has no attribute {attr} ({src(node)[:50] if node is not None else ''})")
         raise AnalysisError(f"circuit evaluation: attribute {attr} of {type(o).__name__} ({src(node)[:50] if node is not None else ''})")
+
+    class _DefaultDict(dict):
+        def __init__(self, factory=None):
+            super().__init__()
+            self.factory = factory
+
+        def __missing__(self, k):
+            if self.factory is None:
+                raise KeyError(k)
+            self[k] = self.factory()
+            return self[k]
+
+    @staticmethod
+    def _defaultdict(factory=None, *a_, **k_):
+        f = {("external", "builtins.list"): list, ("external", "builtins.dict"): dict, ("external", "builtins.set"): set, ("external", "builtins.int"): int}.get(factory if isinstance(factory, tuple) else None)
+        if factory is not None and f is None:
+            raise AnalysisError(f"circuit evaluation: defaultdict({factory!r})")
+        return Interp._DefaultDict(f)
 
     EXTERNAL = {
         "numpy.sqrt": lambda x: np.sqrt(x), "math.sqrt": math.sqrt, "numpy.array": lambda x, **kw: np.array(x, dtype=complex),
@@ -994,6 +1064,13 @@ class Interp:
                 args.extend(self.eval(a.value, env, m))
             else:
                 args.append(self.eval(a, env, m))
+        if isinstance(e.func, ast.Attribute) and e.func.attr in ("format", "join") and callable(f) and isinstance(getattr(f, "__self__", None), str):
+            # text methods print their arguments: objects of the repository are printed by their own __str__
+            conv = lambda x_: (self._to_str(x_) if isinstance(x_, (Obj, EnumMember)) and self._to_str(x_) is not None else x_)
+            if e.func.attr == "format":
+                args = [conv(x_) for x_ in args]
+            elif len(args) == 1 and isinstance(args[0], (list, tuple)):
+                args = [[x_ for x_ in args[0]]]
         kwargs = {}
         for k in e.keywords:
             if k.arg is None:
@@ -1008,6 +1085,8 @@ class Interp:
     def isinstance(self, o, t) -> bool:
         if isinstance(t, tuple) and t[0] == "class":
             c = t[1]
+            if isinstance(o, EnumMember):
+                return o.enum == c.qualname
             if isinstance(o, Obj) and o.cls is not None:
                 return c in self.repo.mro(o.cls)
             if isinstance(o, Obj) and o.kind == "future":
@@ -1095,6 +1174,8 @@ class Interp:
                 name = f[1]
                 if name in getattr(self.sc, "externals", {}):
                     return self.sc.externals[name](*args, **kwargs)  # a library call the rule models for this scenario (clock, sleep, ...)
+                if name == "collections.defaultdict":
+                    return self._defaultdict(*args, **kwargs)
                 if name in self.EXTERNAL:
                     return self.EXTERNAL[name](*args, **kwargs)
                 if name.endswith("get_is_using_hardware"):
@@ -1122,12 +1203,26 @@ class Interp:
                 if mv == v:
                     return EnumMember(c.qualname, k, mv)
             raise EvalRaise("ValueError", "enum")
+        if getattr(self.sc, "run_constructors", False) and not self.repo.is_dataclass(c):
+            r = self.repo.lookup(c, "__init__")
+            if r is not None:
+                o = Obj(c, {})
+                self.call_function(r[0].module, r[1], list(args), dict(kwargs), self_obj=o)
+                return o
         fields = {}
         names = [f[0] for f in self.repo.dataclass_fields(c)]
         for n, v in zip(names, args):
             fields[n] = v
         fields.update(kwargs)
-        return Obj(c, fields)
+        o = Obj(c, fields)
+        if getattr(self.sc, "run_constructors", False) and self.repo.is_dataclass(c):
+            for fname, ann, val, k in self.repo.dataclass_fields(c):
+                if fname not in o.fields:
+                    o.fields[fname] = self.eval(val, {}, k.module) if val is not None else None
+            r = self.repo.lookup(c, "__post_init__")
+            if r is not None:
+                self.call_function(r[0].module, r[1], [], {}, self_obj=o)
+        return o
 
     def method(self, o: Obj, name, args, kwargs, node):
         if o.kind == "self":
